@@ -223,16 +223,7 @@ func checkC12(r *Run) {
 			switch cs.Prov {
 			case "field:transport.shutdown":
 				nCl++
-				inOnce := false
-				if fn.Parent() != nil {
-					eachInstr(fn.Parent(), func(in ssa.Instruction) {
-						if c, ok := in.(*ssa.Call); ok && calleeName(&c.Call) == "(*sync.Once).Do" {
-							if mc, ok := c.Call.Args[1].(*ssa.MakeClosure); ok && mc.Fn == fn {
-								inOnce = true
-							}
-						}
-					})
-				}
+				inOnce := runsOnlyUnderOnce(p, fn)
 				r.Check(inOnce, "close-once", fnName(fn)+": close(transport.shutdown) under sync.Once", fn.Pos(), "shutdown can be closed twice (panic)")
 			case "field:transport.closed":
 				nCl++
@@ -529,7 +520,13 @@ func clientReplyTyped(r *Run, rule string) {
 		})
 		good := len(oks) > 0
 		for _, ret := range returnsOf(fn) {
-			if len(ret.Results) == 0 || !isNilConst(ret.Results[len(ret.Results)-1]) {
+			if len(ret.Results) == 0 {
+				continue
+			}
+			ev := ret.Results[len(ret.Results)-1]
+			// an error that cannot be nil here is no success; any return whose error may be nil must lie on the ok
+			// edge, or hand back the result of a helper given the ok flag that returns nil only when the flag is true
+			if !isNilConst(ev) && (errNeverNilAt(ev, ret) || okGatedError(p, ev, oks)) {
 				continue
 			}
 			onOk := false
@@ -598,4 +595,85 @@ func c12WriteFailure(r *Run, p *Prog, owner *ssa.Function) {
 		}
 	}
 
+}
+
+// errNeverNilAt: the error value cannot be nil where it is returned: tested non-nil on the way, freshly built, or a
+// package-level error variable.
+func errNeverNilAt(ev ssa.Value, at ssa.Instruction) bool {
+	if knownNonNilAt(ev, at) {
+		return true
+	}
+	switch x := ev.(type) {
+	case *ssa.MakeInterface:
+		return true
+	case *ssa.UnOp:
+		if _, isG := x.X.(*ssa.Global); isG && x.Op == token.MUL {
+			return true
+		}
+	case *ssa.Phi:
+		for _, e := range x.Edges {
+			if isNilConst(e) {
+				return false
+			}
+			switch y := e.(type) {
+			case *ssa.MakeInterface:
+			case *ssa.UnOp:
+				if _, isG := y.X.(*ssa.Global); !isG {
+					return false
+				}
+			default:
+				return false
+			}
+		}
+		return true
+	}
+	return false
+}
+
+// okGatedError: ev is the result of a module helper handed one of the ok flags (`return ackResult(ok)`) that
+// returns nil only when that flag is true.
+func okGatedError(p *Prog, ev ssa.Value, oks []ssa.Value) bool {
+	c, ok := ev.(*ssa.Call)
+	if !ok {
+		return false
+	}
+	g := staticCallee(&c.Call)
+	if g == nil || g.Blocks == nil || !p.InModule(g) || g.Signature.Results().Len() != 1 {
+		return false
+	}
+	for i, a := range c.Call.Args {
+		if i >= len(g.Params) {
+			break
+		}
+		for _, okv := range oks {
+			if a == okv && nilOnlyWhenTrue(g, g.Params[i]) {
+				return true
+			}
+		}
+	}
+	return false
+}
+
+// nilOnlyWhenTrue: every exit of g whose (single, error) result may be nil lies on an edge where the flag is true.
+func nilOnlyWhenTrue(g *ssa.Function, flag *ssa.Parameter) bool {
+	n := 0
+	for _, rs := range returnSites(g) {
+		if len(rs.Results) != 1 {
+			return false
+		}
+		n++
+		if errNeverNilAt(rs.Results[0], rs.At()) {
+			continue
+		}
+		on := false
+		for _, cd := range rs.Conds() {
+			if nc := normCond(cd); nc.V == ssa.Value(flag) && nc.Truth {
+				on = true
+			}
+		}
+		if !on {
+			return false
+		}
+	}
+	return n > 0
 }
